@@ -1,15 +1,18 @@
 SPECIFICATION Spec
 CONSTANTS
-  Formats = {"amf0", "aac", "ws", "avc", "flvtag", "ocspreq"}
+  Formats = {"amf0", "aac", "avc", "ocspreq"}
   SeedCap = 1
   MaxMut = 2
-  Ops1 = {"trunc", "set", "dup", "drop", "splice", "nest", "field", "tlv", "random"}
+  Ops1 = {"trunc", "set", "drop", "dup", "splice", "nest", "tlv", "random"}
   Ops2 = {"trunc", "drop"}
   NestDepths = {1, 2}
+  SpliceWindow = 2
+  StructAllSeeds = FALSE
   SpliceOther = TRUE
   RandLens = {0, 1, 7}
   NRand = 2
-  NodeIdx = {0}
+  NodeIdx = {}
+  ByteOpsAllSeeds = FALSE
   PanicOnForbidden = TRUE
 VIEW McView
 INVARIANTS Total
